@@ -270,6 +270,9 @@ def run_shard(spec, seed):
                 ("operator", "getitem"), ("torch", "load"), ("builtins", "getattr"),
                 ("subprocess", "system"), ("torch.storage", "_load_from_bytes"),
                 ("datetime", "attrgetter"), ("pandas", "runstring"), ("code", "_run_code"),
+                # names that are str.format / %-templates (legal in GLOBAL; they decompile)
+                ("os.{x.y}", "system"), ("{}", "eval"), ("torch.{0}", "load"), ("%s.%(a)s", "exec"),
+                ("numpy.{", "runstring"),
             )
         )  # fmt: skip
         if spec["kind"] == "random":
